@@ -351,6 +351,16 @@ func (m *collection) mergerNotifyPersister() {
 			prevLowerLevelSnapshot.decRef()
 		}
 
+		// The child stacks still point at the child snapshots of the
+		// lower level as of the merger's ingest; a persistence round
+		// may have completed since, so re-point them too.
+		if m.stackDirtyBase.lowerLevelSnapshot != nil {
+			m.refreshChildLLSnapshots(m.stackDirtyBase,
+				m.stackDirtyBase.lowerLevelSnapshot.ss)
+		} else {
+			m.refreshChildLLSnapshots(m.stackDirtyBase, nil)
+		}
+
 		if m.waitDirtyOutgoingCh != nil {
 			close(m.waitDirtyOutgoingCh)
 		}
